@@ -293,7 +293,10 @@ def run(ctx):
         cells = order_cells()
         faults = fault_cells()
         nests = nesting_programs()
-        items = [("table", t) for t in table] + [("nest", t) for t in nests] + [("cell", c) for c in cells] + [("fault", f) for f in faults]
+        from .. import tables
+        btabs = tables.builtin_tables()
+        bt_labels = {t[0]: t[4] for t in btabs}
+        items = [("table", t) for t in table] + [("nest", t) for t in nests] + [("btable", t[:4]) for t in btabs] + [("cell", c) for c in cells] + [("fault", f) for f in faults]
         cen = [("census", (n, t, e, 1)) for n, t, e in sweep.census_cells()]
         hostile = sweep.collision_string_programs(plain, ctx.rng("collide"), want=ctx.n(6, 40))
         ctx.require(len(hostile) >= 3, "could not find hash-colliding string pairs")
@@ -307,6 +310,7 @@ def run(ctx):
 
         table_cells = {"native": 0, "vm": 0}
         nest_cells = {"native": 0, "vm": 0}
+        bt_cells = {"native": 0, "vm": 0}
         cell_hist = {}
         results = pmap(do, items + cen)
         for (kind, (name, text, exp, ncell)), o in results:
@@ -315,7 +319,7 @@ def run(ctx):
             for eng, res in (("native", o.native), ("vm", o.vm)):
                 if eng == "native" and not o.built:
                     cell_hist["native:skip-build-failed"] = cell_hist.get("native:skip-build-failed", 0) + 1
-                    if kind in ("table", "fault", "nest"):
+                    if kind in ("table", "fault", "nest", "btable"):
                         ctx.violation("%s|%s|native-build" % (kind, name), "table program %s does not build natively: %s" % (name, engines.classify_nanoc_failure(o.nanoc)),
                                       {"main.nano": text, "nanoc.stderr": o.nanoc.err})
                     continue
@@ -324,6 +328,17 @@ def run(ctx):
                 if kind == "census":
                     mm = re.search(r"<<S\n(.*?)>>E\n", got, re.S)
                     got = mm.group(1) if mm else got
+                if kind == "btable":
+                    bad = tables.judge_lines(want, got) if "SENTINEL" in got else None
+                    if bad is None:
+                        ctx.violation("btable|%s|%s|truncated" % (name, eng), "%s: %s run of the builtin table ended early (status %s): %s" % (name, eng, res.status, res.errtext()[-300:]),
+                                      {"main.nano": text, "stdout": res.out})
+                        continue
+                    bt_cells[eng] += ncell
+                    for k, lab, w, g in bad[:40]:
+                        ctx.violation("btable|%s|%s" % (lab, eng), "builtin table: %s%s on %s: expected '%s' got '%s'" % (lab, tuple(bt_labels[name][k][1]), eng, w, g),
+                                      {"main.nano": text, "expected.stdout": want, eng + ".stdout": res.out})
+                    continue
                 if kind == "nest":
                     if "SENTINEL" not in got:
                         ctx.violation("nest|%s|%s|truncated" % (name, eng), "%s: %s run of the nesting table ended early (status %s): %s" % (name, eng, res.status, res.errtext()[-300:]),
@@ -363,6 +378,7 @@ def run(ctx):
                         {"main.nano": text, "expected.stdout": want, eng + ".stdout": res.out})
         ctx.require(table_cells["vm"] > 2000 and table_cells["native"] > 2000, "operator tables incomplete: %s" % table_cells)
         ctx.require(nest_cells["vm"] > 1000 and nest_cells["native"] > 1000, "nesting tables incomplete: %s" % nest_cells)
+        ctx.require(bt_cells["vm"] > 2500 and bt_cells["native"] > 2500, "builtin tables incomplete: %s" % bt_cells)
 
         # ---- NanoCore: functions labelled verified vs the Coq relation ------------------
         nc_text, nc_cells = nanocore_program()
@@ -434,14 +450,16 @@ def run(ctx):
         samples.append({"order_cell": cells[0][0], "program": cells[0][1], "expected": cells[0][2]})
         n_table = sum(t[3] for t in table)
         return ctx.finish({
-            "evaluations": n_table * 2 + sum(nest_cells.values()) + (len(cells) + len(faults) + len(cen)) * 2 + len(batch) * 2 + nanocore_cells,
-            "distinct_nontrivial": n_table + sum(t[3] for t in nests) + len(cells) + len(cen) + len(fsets),
+            "evaluations": n_table * 2 + sum(nest_cells.values()) + sum(bt_cells.values()) + (len(cells) + len(faults) + len(cen)) * 2 + len(batch) * 2 + nanocore_cells,
+            "distinct_nontrivial": n_table + sum(t[3] for t in nests) + sum(t[3] for t in btabs) + len(cells) + len(cen) + len(fsets),
             "rule": "distinct table cells (operator, a, b) + distinct order/scope/short-circuit cells + census cells + distinct feature sets "
                     "of generated programs whose >= 10 output lines equalled the model on the VM",
             "exhaustive": True,
             "explanation": "the operator x boundary-value table (%d cells per engine over %d values) is enumerated completely; the program sweep is sampled" % (n_table, len(VALUES)),
             "table_cells_per_engine": table_cells,
             "nesting_cells_per_engine": nest_cells,
+            "builtin_table_cells_per_engine": bt_cells,
+            "builtin_tables": "int<->string over every decimal-length boundary of int64, abs/min/max over the operator values, character classes over 0..127, str_substring over every (start, length) of short strings, contains/equals/concat matrices (nlv/tables.py)",
             "nesting_shapes": "25 (outer, inner) arithmetic pairs x {prefix L/R, parenthesised infix L/R, unparenthesised infix chain}, 30 comparison-over-arithmetic x L/R, negation of/by a nested operand; %d operand triples" % len(NEST_TRIPLES),
             "values": [str(v) for v in VALUES],
             "cells": {"order_scope_shortcircuit": len(cells), "fault": len(faults), "census": len(cen), "nanocore": nanocore_cells},
